@@ -11,7 +11,7 @@ m = {
     "setup_cmd": "bin/setup.sh",
     "hooks": {
         "guard": "verif (Go build tag)",
-        "enable": "bin/build.sh: go1.26.8 test -c -tags verif with /verif/sim and /verif/glue overlaid into the taskctl module (-overlay, -modfile copy of go.mod); binaries run with GODEBUG=asynctimerchan=0. In the same overlay step (simulated build only, /repo untouched) copies of taskctl's own source files are rewritten: sync.Mutex|RWMutex|Once -> channel-based sim/vsync types (durable blocking in the synctest bubble), and in pkg/scheduler `range g.Nodes()` -> `range verifNodes(g.Nodes())` plus a `verifYield(\"sched-visit\", stage)` at the top of those loops (seeded visiting order, mid-pass park points); every top-level function of pkg/* and internal/* gets a preemption point at its entry and (tools/stmtpoints, go/ast) before each of its statements - inactive unless the controller armed it for the goroutine it just released; `<-cancel` in cmd/taskctl becomes a wait point (when the CLI's cancel listeners act is a seeded choice); the build's go.mod copy replaces github.com/briandowns/spinner by a copy under $VERIF_BUILD/third_party whose lock is the channel-based one and whose exported functions are preemption points. Switches: VERIF_NO_VSYNC=1 (no rewrite at all), VERIF_NO_PREEMPT=1, VERIF_NO_STMT=1, VERIF_NO_SPINNER=1.",
+        "enable": "bin/build.sh: go1.26.8 test -c -tags verif with /verif/sim and /verif/glue overlaid into the taskctl module (-overlay, -modfile copy of go.mod); binaries run with GODEBUG=asynctimerchan=0. In the same overlay step (simulated build only, /repo untouched) copies of taskctl's own source files are rewritten: sync.Mutex|RWMutex|Once -> channel-based sim/vsync types (durable blocking in the synctest bubble), and in pkg/scheduler `range g.Nodes()` -> `range verifNodes(g.Nodes())` plus a `verifYield(\"sched-visit\", stage)` at the top of those loops (seeded visiting order, mid-pass park points); every top-level function of pkg/* and internal/* gets a preemption point at its entry and (tools/stmtpoints, go/ast) before each of its statements - inactive unless the controller armed it for the goroutine it just released; `<-cancel` in cmd/taskctl becomes a wait point (when the CLI's cancel listeners act is a seeded choice); the build's go.mod copy replaces github.com/briandowns/spinner by a copy under $VERIF_BUILD/third_party whose lock is the channel-based one and whose exported functions are preemption points; `cleanupList.Range` in pkg/runner (teardown of the execution contexts at Finish) visits the contexts in a seeded order instead of the sync.Map's. Switches: VERIF_NO_VSYNC=1 (no rewrite at all), VERIF_NO_PREEMPT=1, VERIF_NO_STMT=1, VERIF_NO_SPINNER=1.",
         "baseline_off_cmd": "cd /repo && GOFLAGS=-mod=mod GOPROXY=off GOSUMDB=off go test -vet=off -count=1 -timeout 25m ./...",
         "source_commits": hook_commits,
         "add_only": True,
